@@ -177,7 +177,7 @@ def one_run(ctx, g, sc, pr, lib, path, spec, form, pool_factory, fault, ref, see
                 os.unlink(rec.armed_file)
             ctx.count("follow-up-on-same-pool:" + ("multi" if hasattr(inner_pool, "terminate") else "serial"))
             ref_here, replaced = ref, False
-            if path and fault[1] > 1 and (fault[1] + len(fault[0]) + g["index"]) % 2 == 0:
+            if path and fault[1] > 1 and (spec["entry"] != "iterative" or (fault[1] + len(fault[0]) + g["index"]) % 2 == 0):
                 # between the failed call and the next one the USER replaces the library under the same name (the same rows, the
                 # period column in another valid unit): whatever the failed call had read must not survive.  Reference: a fresh
                 # TheJoker on a copy of the new file under a name nobody has read from.
